@@ -315,6 +315,59 @@ func runC16(c *Ctx) {
 	if p == nil {
 		return
 	}
+	// R16.3 every known value that passes the length pre-filter is scored: the list the scoring loop ranges over is the list
+	// the pre-filter built, not a prefix of it
+	if nm := p.Func(scPkg, "(*Classifier).nearestMatch"); c.R.Anchor(nm != nil, "stringclassifier.(*Classifier).nearestMatch") {
+		nL := 0
+		for _, f := range pkgClosure(nm, scPkg) {
+			for _, rl := range rangeLoopsOf(f) {
+				// the loop that starts the scoring tasks
+				starts := false
+				for _, b := range f.Blocks {
+					if !rl.header.Dominates(b) {
+						continue
+					}
+					for _, in := range b.Instrs {
+						if _, isGo := in.(*ssa.Go); isGo {
+							starts = true
+						}
+					}
+				}
+				if !starts {
+					continue
+				}
+				nL++
+				cut := ""
+				seen := map[ssa.Value]bool{}
+				var walk func(v ssa.Value)
+				walk = func(v ssa.Value) {
+					if seen[v] {
+						return
+					}
+					seen[v] = true
+					switch x := v.(type) {
+					case *ssa.Phi:
+						for _, e := range x.Edges {
+							walk(e)
+						}
+					case *ssa.Slice:
+						if x.High != nil || x.Low != nil {
+							cut = p.Pos(x.Pos())
+						}
+						walk(x.X)
+					case *ssa.Call:
+						if bi, ok := x.Call.Value.(*ssa.Builtin); ok && bi.Name() == "append" {
+							walk(x.Call.Args[0])
+						}
+					}
+				}
+				walk(core.Unspill(rl.over))
+				c.R.Check(cut == "", "R16.3", core.ShortFn(f)+": every candidate that passed the pre-filter is scored", p.Pos(rl.header.Instrs[0].Pos()),
+					"the scoring loop ranges over the list the pre-filter appended to", "the candidate list is cut at "+cut+" before it is scored: with a large corpus the right license may not be among the candidates that are kept")
+			}
+		}
+		c.R.RequireMin("R16.3", "scoring loops of nearestMatch", nL, 1)
+	}
 	// shared with C14: NearestMatch/MultipleMatch keep no scratch state between calls (R14.5); shared with C15: every
 	// archived text is read completely and paired with its own search set when the corpus is loaded (R15.2, R15.4)
 	checkV1SharedWrites(c, p)
